@@ -1259,3 +1259,8 @@ Example valid_page_example_ties :
   valid_page rs (IValue 7) true 1 1 None None [[98]] = true /\
   valid_page rs (IValue 7) true 1 1 None None [[99]] = false.
 Proof. vm_compute. auto. Qed.
+
+(* the tabulation used by the case checker does not change the state *)
+Lemma freeze_ext s : recs (freeze s) = recs s /\ vtype (freeze s) = vtype s /\
+  forall f a, bcn (freeze s) f a = bcn s f a.
+Proof. split; [reflexivity | split; [reflexivity|]]. intros f a. destruct f, a; reflexivity. Qed.
